@@ -18,6 +18,10 @@ Over M-Core's `Sess` methods (node.go:113-161, 163-211, 401-446), for every sess
    PDR, the recorded count of every URR the session knows equals the number of PDRs whose current list names it;
  * `remove_pdr_final_once`, `update_pdr_final_once`: hence a Remove PDR / Update PDR the data plane accepts queries
    exactly the URRs that lose their last referring PDR in that request — each once, none else — whatever the order;
+ * `removed_reported_once` (Remove URR and session deletion — the two response carriers drop the bookkeeping of a removed
+   URR after its report): however many reports the data plane returned for a removed URR — the Remove URR answer, the
+   dissociation query of a PDR removed in the same request, several records in one answer — exactly ONE usage-report IE
+   for it goes into the response if the session knew it and there is a report at all, none otherwise;
  * `recreate_live_pdr_breaks` (negation, by evaluation): Create PDR for a LIVE PDR id overwrites the PDR's URR set
    without releasing the references of the old set — the count no longer equals the number of referring PDRs and the
    final report of the dropped URR is never produced.  This is the hypothesis `count_is_refs` needs; it is a property
@@ -26,6 +30,7 @@ Over M-Core's `Sess` methods (node.go:113-161, 163-211, 401-446), for every sess
 import UpfVerif.Model.Core
 import UpfVerif.Lemmas.Core
 import UpfVerif.Lemmas.CoreRef
+import UpfVerif.Props.C11
 
 namespace UpfVerif.C12
 open UpfVerif.Core
@@ -113,6 +118,88 @@ example :
     let (s4, c4, r4) := s3.removePDR { id := some 1 } { c3 with pending := [ok] }
     let (_, _, r5) := s4.removePDR { id := some 2 } { c4 with pending := [ok, (default, { ok := true, reports := [rep] })] }
     r4 = [] ∧ r5.map (fun r => (r.urr, hasTERMR r)) = [(1, true)] := by decide
+
+/-! ### once per URR in the response that ends it -/
+
+theorem ie_of (s : Sess) (r : Report) (x : BitVec 32) (b : Bool) (ie : UsarIE) (h : (emitOne s r x b).2 = some ie) :
+    ie.urr = r.urr := by
+  unfold emitOne at h
+  split at h
+  · cases h
+  · simp at h; rw [← h]
+
+/-- a URR the session does not know (or no longer knows) gets no IE, whatever the batch -/
+theorem unknown_never_reported (rs : List Report) (x : BitVec 32) (u : Nat) :
+    ∀ (s : Sess), alGet s.urrs u = none → ((emitUsars s rs x true).2.filter (·.urr == u)) = [] := by
+  induction rs with
+  | nil => intro s _; simp [emitUsars]
+  | cons r rs ih =>
+    intro s h
+    unfold emitUsars
+    by_cases hr : r.urr = u
+    · subst hr
+      rw [C11.emit_unknown s r x true h]
+      simpa using ih s h
+    · have hne : u ≠ r.urr := fun hc => hr hc.symm
+      have hsame := C11.other_urr_untouched s r x true u hne
+      rw [List.filter_append, ih _ (by rw [hsame]; exact h)]
+      cases ho : (emitOne s r x true).2 with
+      | none => simp
+      | some ie => simp [ie_of s r x true ie ho, hr]
+
+/-- **once per URR**: in a response carrier, a URR marked removed gets exactly one IE if the session knows it and the
+    batch has a report for it, and none otherwise — however many reports there are for it -/
+theorem removed_reported_once (rs : List Report) (x : BitVec 32) (u : Nat) :
+    ∀ (s : Sess), (∀ info, alGet s.urrs u = some info → info.removed = true) →
+      ((emitUsars s rs x true).2.filter (·.urr == u)).length =
+        if (alGet s.urrs u).isSome = true ∧ (∃ r ∈ rs, r.urr = u) then 1 else 0 := by
+  induction rs with
+  | nil => intro s _; simp [emitUsars]
+  | cons r rs ih =>
+    intro s hrem
+    unfold emitUsars
+    by_cases hr : r.urr = u
+    · subst hr
+      cases hg : alGet s.urrs r.urr with
+      | none =>
+        rw [C11.emit_unknown s r x true hg]
+        have := unknown_never_reported rs x r.urr s hg
+        simp [this]
+      | some info =>
+        obtain ⟨ie, hie, hiu, _, hnext⟩ := C11.emit_known s r x true info hg
+        have hr' : info.removed = true := hrem info hg
+        simp only [hr', Bool.and_self, if_true] at hnext
+        have := unknown_never_reported rs x r.urr (emitOne s r x true).1 hnext
+        simp [hie, hiu, this]
+    · have hne : u ≠ r.urr := fun hc => hr hc.symm
+      have hsame := C11.other_urr_untouched s r x true u hne
+      have := ih (emitOne s r x true).1 (by intro info hi; rw [hsame] at hi; exact hrem info hi)
+      rw [List.filter_append, List.length_append, this, hsame]
+      have h0 : ((emitOne s r x true).2.toList.filter (·.urr == u)).length = 0 := by
+        cases ho : (emitOne s r x true).2 with
+        | none => simp
+        | some ie => simp [ie_of s r x true ie ho, hr]
+      rw [h0]
+      by_cases hk : (alGet s.urrs u).isSome = true
+      · by_cases he : ∃ r' ∈ rs, r'.urr = u
+        · have : ∃ r' ∈ r :: rs, r'.urr = u := by obtain ⟨r', h1, h2⟩ := he; exact ⟨r', by simp [h1], h2⟩
+          simp [hk, he, this]
+        · have : ¬ ∃ r' ∈ r :: rs, r'.urr = u := by
+            rintro ⟨r', h1, h2⟩
+            rcases List.mem_cons.mp h1 with e | e
+            · exact hr (e ▸ h2)
+            · exact he ⟨r', e, h2⟩
+          simp [hk, he, hr]
+      · simp [hk]
+
+/-- non-vacuity: URR 3 removed, three reports for it (two from the removal answer, one from a dissociation query) and one
+    for URR 4 which is not removed: the response carries one IE for URR 3 (the first, UR-SEQN 5) and the one for URR 4 -/
+example :
+    let s : Sess := { rnode := 0, localID := 1, remoteID := 2,
+                      urrs := [(3, { removed := true, seqn := 5, volum := true }), (4, { seqn := 9, volum := true })] }
+    let rep (u n : Nat) : Report := { urr := u, trig := 0, meas := [n, 0, 0, 0, 0, 0, 1, 2, 3] }
+    ((emitUsars s [rep 3 10, rep 4 20, rep 3 30, rep 3 40] usarTERMR true).2.map fun ie => (ie.urr, ie.seqn)) = [(3, 5), (4, 9)] := by
+  decide
 
 /-! ### the whole history -/
 
